@@ -44,14 +44,12 @@ Fixpoint strip_tree (t : tree) : tree :=
   | _ => t
   end.
 
-Definition local_is (l : bytes) (x : attr) : bool := bytes_eqb (nlocal (aname x)) l.
-
-(* an attribute named id or from (by local name) with an empty value is dropped *)
+(* an unqualified attribute named id or from with an empty value is dropped *)
 Definition dropped (x : attr) : bool :=
-  (local_is s_id x || local_is s_from x) && is_empty (aval x).
+  (plain_is s_id x || plain_is s_from x) && is_empty (aval x).
 
 Definition has_nonempty (l : bytes) (a : list attr) : bool :=
-  existsb (fun x => local_is l x && negb (is_empty (aval x))) a.
+  existsb (fun x => plain_is l x && negb (is_empty (aval x))) a.
 
 Definition spec_attrs (c : cfg) (id : bytes) (a : list attr) : list attr :=
   filter (fun x => negb (dropped x)) a
@@ -155,3 +153,16 @@ Definition is_stanza_tree (t : tree) : bool := match t with Elem n _ _ => is_sta
 Definition top_attrs_of (t : tree) : list attr := match t with Elem _ a _ => a | _ => [] end.
 Definition top_name_of (t : tree) : name := match t with Elem n _ _ => n | _ => mkname [] [] end.
 Definition kids_of (t : tree) : list tree := match t with Elem _ _ k => k | _ => [] end.
+
+(* the tokens of a sequence of calls' elements, in order (what must reach the
+   connection) *)
+Fixpoint seq_tokens (c : cfg) (ids : list bytes) (es : list (tree * nat)) : list token :=
+  match es with
+  | [] => []
+  | (e, _) :: r => tokens_of (spec_top c (hd_id ids) e) ++ seq_tokens c (pop_if (needs_id e) ids) r
+  end.
+
+(* two lists of byte strings with the same members *)
+Definition same_set (a b : list bytes) : bool :=
+  forallb (fun x => in_list x b) a && forallb (fun x => in_list x a) b.
+
